@@ -112,4 +112,187 @@ theorem C03_extension (A : Aead) (hA : A.Lawful) (key aad : Bytes) (hk : key.len
       exact absurd (List.eq_nil_of_length_eq_zero this) ht
   · exact Or.inr hres
 
+/-! ### whole files that keep the authentic header -/
+
+/-- **C03 (password-mode file; reduction).**  `F` = the file the sender produced for password `w` and salt `salt`.
+    For EVERY `F'` whose first 36 bytes (magic, salt) are those of `F`: either the part of `F'` after the header
+    exhibits a forgery under the scrypt key `P.kdf w salt`, or decryption releases a prefix of the authentic chunk
+    list and — if it reports success — released exactly `fileChunks reads` and `F'` is `F` up to the advisory
+    counter fields. -/
+theorem C03_file_pass (P : Prims) (hA : P.aead.Lawful) (w salt : Bytes) (reads : List Bytes)
+    (hsalt : salt.length = 32) (hkdf : (P.kdf w salt).length = 32)
+    (hwf : wellFormedReads reads) (hle : ∀ c ∈ reads, c.length ≤ chunkSize)
+    (F' : Bytes) (hhdr : F'.take 36 = (passEncrypt P w salt reads).1.take 36)
+    (ws : List Bytes) (res : Res) (h : passDecrypt P w F' = (ws, res)) :
+    ForgeryIn P.aead (P.kdf w salt) encPassMagic 0 (fileChunks reads) (F'.drop 36) ∨
+    (ws <+: fileChunks reads ∧
+      (res = .ok → ws = fileChunks reads ∧ ∃ cf : Nat → Bytes, (∀ i, (cf i).length = 8) ∧
+        F' = encPassMagic ++ salt ++ serialize P.aead (P.kdf w salt) encPassMagic cf 0 (fileChunks reads))) := by
+  have h36 : (encPassMagic ++ salt).length = 36 := by simp [gen_passmagic_len, hsalt]
+  rw [passEncrypt_eq P w salt reads hwf] at hhdr
+  simp only [] at hhdr
+  rw [List.append_assoc encPassMagic salt, ← List.append_assoc, List.take_left' h36] at hhdr
+  obtain ⟨hm, hs, hl⟩ := take_append_split F' encPassMagic salt (by rw [gen_passmagic_len, hsalt]; exact hhdr)
+  rw [gen_passmagic_len] at hm hs hl
+  rw [hsalt] at hs hl
+  rw [passDecrypt_body P w F' hm hl, hs] at h
+  have h32 : ∀ c ∈ fileChunks reads, c.length < 2^32 := fun c hc =>
+    Nat.lt_of_le_of_lt (fileChunks_le reads chunkSize hle c hc) gen_chunkSize_lt
+  rcases C03_chunks P.aead hA (P.kdf w salt) encPassMagic hkdf chunkSize (fileChunks reads) (fileChunks_ne_nil reads) h32
+      (F'.drop 36) ws res h with hf | ⟨hpre, hok⟩
+  · exact Or.inl hf
+  · refine Or.inr ⟨hpre, fun hres => ?_⟩
+    obtain ⟨hws, cf, hcf, hF⟩ := hok hres
+    refine ⟨hws, cf, hcf, ?_⟩
+    rw [← hF, ← hhdr, List.take_append_drop]
+
+/-- **C03 (key-mode file; reduction).**  `F` = the file produced by `key_encrypt` (handshake message `msg`,
+    handshake hash `hh`, so the file key is `P.hkdfFile pk hh`).  For EVERY `F'` whose first 132 bytes (magic and
+    handshake message) are those of `F`: either the part after the header exhibits a forgery under the file key, or
+    decryption releases a prefix of the authentic chunk list, names a sender only on success, and — on success —
+    released exactly `fileChunks reads`, names exactly `spk`, and `F'` is `F` up to the advisory counter fields. -/
+theorem C03_file_key (P : Prims) (hP : P.Lawful) (s spk r rpk e epk pk d1 d2 msg hh : Bytes) (reads : List Bytes)
+    (hE : epk.length = 32) (hS : spk.length = 32) (hK : pk.length = 32)
+    (h1 : P.dh e rpk = some d1) (h2 : P.dh s rpk = some d2)
+    (h1' : P.dh r epk = some d1) (h2' : P.dh r spk = some d2)
+    (hwf : wellFormedReads reads) (hle : ∀ c ∈ reads, c.length ≤ chunkSize)
+    (hw : Noise.writeMessage P encPrologue s spk rpk e epk pk = .ok (msg, hh))
+    (F' : Bytes) (hhdr : F'.take 132 = (keyEncrypt P s spk rpk e epk pk reads).1.take 132)
+    (ws : List Bytes) (res : Res) (snd : Option Bytes) (h : keyDecrypt P r rpk F' = (ws, res, snd)) :
+    ForgeryIn P.aead (P.hkdfFile pk hh) [] 0 (fileChunks reads) (F'.drop 132) ∨
+    (ws <+: fileChunks reads ∧ (res ≠ .ok → snd = none) ∧
+      (res = .ok → ws = fileChunks reads ∧ snd = some spk ∧ ∃ cf : Nat → Bytes, (∀ i, (cf i).length = 8) ∧
+        F' = encPrologue ++ msg ++ serialize P.aead (P.hkdfFile pk hh) [] cf 0 (fileChunks reads))) := by
+  have hml : msg.length = 128 := by
+    rw [Noise.writeMessage_length P hP _ _ _ _ _ _ _ _ _ hE hS hw, hK]
+  have h132 : (encPrologue ++ msg).length = 132 := by simp [gen_prologue_len, hml]
+  rw [keyEncrypt_eq P s spk rpk e epk pk msg hh reads hwf hw] at hhdr
+  simp only [] at hhdr
+  rw [List.take_left' h132] at hhdr
+  obtain ⟨hm, hs, hl⟩ := take_append_split F' encPrologue msg (by rw [gen_prologue_len, hml]; exact hhdr)
+  rw [gen_prologue_len] at hm hs hl
+  rw [hml] at hs hl
+  have hrd := Noise.readMessage_writeMessage P hP encPrologue s spk r rpk e epk pk d1 d2 msg hh hE hS (by omega)
+    h1 h2 h1' h2' hw
+  rw [keyDecrypt_body P r rpk F' hm hl, hs, hrd] at h
+  simp only [hK, ne_eq, not_true_eq_false, if_false, Prod.mk.injEq] at h
+  obtain ⟨hws, hres, hsnd⟩ := h
+  have h32 : ∀ c ∈ fileChunks reads, c.length < 2^32 := fun c hc =>
+    Nat.lt_of_le_of_lt (fileChunks_le reads chunkSize hle c hc) gen_chunkSize_lt
+  rcases C03_chunks P.aead hP.aead (P.hkdfFile pk hh) [] (hP.hkdfFile_len pk hh) chunkSize (fileChunks reads)
+      (fileChunks_ne_nil reads) h32 (F'.drop 132) ws res (by rw [← hws, ← hres]) with hf | ⟨hpre, hok⟩
+  · exact Or.inl hf
+  · refine Or.inr ⟨hpre, fun hne => ?_, fun hr => ?_⟩
+    · rw [← hsnd, hres, if_neg hne]
+    · obtain ⟨hwe, cf, hcf, hF⟩ := hok hr
+      refine ⟨hwe, by rw [← hsnd, hres, if_pos hr], cf, hcf, ?_⟩
+      rw [← hF, ← hhdr, List.take_append_drop]
+
+/-- **C03 (password mode, magic).**  A file whose first four bytes are not the password-mode magic number is
+    rejected with nothing written — outright: the magic is compared, not merely authenticated. -/
+theorem C03_pass_magic (P : Prims) (pw F' : Bytes) (h : F'.take 4 ≠ encPassMagic) :
+    (passDecrypt P pw F').1 = [] ∧ (passDecrypt P pw F').2 ≠ .ok :=
+  passDecrypt_bad_magic P pw F' h
+
+/-- **C03 (key mode, magic).** -/
+theorem C03_key_magic (P : Prims) (r rpk F' : Bytes) (h : F'.take 4 ≠ encPrologue) :
+    (keyDecrypt P r rpk F').1 = [] ∧ (keyDecrypt P r rpk F').2.1 ≠ .ok ∧ (keyDecrypt P r rpk F').2.2 = none :=
+  keyDecrypt_bad_magic P r rpk F' h
+
+/-! ### strictness of whole files (no cryptographic hypothesis) -/
+
+/-- **C03 (strict file, password mode).**  For EVERY byte string `F'`: if `pass_decrypt` accepts it then `F'` is the
+    password-mode magic, 32 salt bytes, and a strict record sequence under the key derived from the password and
+    exactly those salt bytes, with the magic as associated-data prefix.  One accepted byte string per
+    (salt, chunk list, flag bytes, counter bytes). -/
+theorem C03_strict_file_pass (P : Prims) (hA : P.aead.Lawful) (pw F' : Bytes) (ws : List Bytes)
+    (hkdf : (P.kdf pw ((F'.drop 4).take 32)).length = 32)
+    (h : passDecrypt P pw F' = (ws, .ok)) :
+    ∃ hs : List (Bytes × Bytes × Bytes),
+      hs.map (·.2.2) = ws ∧
+      F' = encPassMagic ++ (F'.drop 4).take 32 ++
+             rawSerialize P.aead (P.kdf pw ((F'.drop 4).take 32)) encPassMagic 0 hs ∧
+      ((F'.drop 4).take 32).length = 32 ∧
+      (∀ h ∈ hs, h.1.length = 8 ∧ h.2.1.length = 4 ∧ h.2.2.length ≤ chunkSize) ∧
+      (∃ init l, hs = init ++ [l] ∧ beVal l.2.1 = 1 ∧ ∀ h ∈ init, beVal h.2.1 ≠ 1) := by
+  by_cases hm : F'.take 4 = encPassMagic
+  · by_cases hl : 36 ≤ F'.length
+    · rw [passDecrypt_body P pw F' hm hl] at h
+      obtain ⟨hs, hmap, hser, hall, hfl, _⟩ :=
+        C03_strict_chunks P.aead hA _ encPassMagic hkdf chunkSize _ 0 _ ws h
+      refine ⟨hs, hmap, ?_, by simp only [List.length_take, List.length_drop]; omega, hall, hfl⟩
+      rw [← hser, ← hm, ← List.take_add, List.take_append_drop]
+    · have := (passDecrypt_short P pw F' (by omega)).2
+      rw [h] at this; exact absurd rfl this
+  · have := (passDecrypt_bad_magic P pw F' hm).2
+    rw [h] at this; exact absurd rfl this
+
+/-- **C03 (strict file, key mode).**  For EVERY byte string `F'`: if `key_decrypt` accepts it and names `S'`, then
+    with `E'` = bytes 4..36 of `F'`, `d1 = dh r E'`, `d2 = dh r S'`:
+      `F' = magic ‖ E' ‖ enc k1 0 h1 S' ‖ enc k2 0 h2 pk' ‖ (strict record sequence under hkdfFile pk' h3)`
+    where k1, h1, k2, h2, h3 are exactly the values `readMessage` derives from (magic, rpk, E', the two fields).
+    One accepted byte string per (E', S', pk', chunk list, flag bytes, counter bytes). -/
+theorem C03_strict_file (P : Prims) (hP : P.Lawful) (r rpk F' S' : Bytes) (ws : List Bytes)
+    (h : keyDecrypt P r rpk F' = (ws, .ok, some S')) :
+    ∃ (d1 d2 pk' : Bytes) (hs : List (Bytes × Bytes × Bytes)),
+      P.dh r ((F'.drop 4).take 32) = some d1 ∧ P.dh r S' = some d2 ∧ S'.length = 32 ∧ pk'.length = 32 ∧
+      ((F'.drop 4).take 32).length = 32 ∧
+      hs.map (·.2.2) = ws ∧
+      F' = encPrologue ++ (F'.drop 4).take 32 ++
+            P.aead.enc (Noise.k1 P d1) 0 (Noise.h1 P encPrologue rpk ((F'.drop 4).take 32)) S' ++
+            P.aead.enc (Noise.k2 P d1 d2) 0
+              (Noise.h2 P encPrologue rpk ((F'.drop 4).take 32)
+                (P.aead.enc (Noise.k1 P d1) 0 (Noise.h1 P encPrologue rpk ((F'.drop 4).take 32)) S')) pk' ++
+            rawSerialize P.aead
+              (P.hkdfFile pk' (Noise.h3 P encPrologue rpk ((F'.drop 4).take 32)
+                (P.aead.enc (Noise.k1 P d1) 0 (Noise.h1 P encPrologue rpk ((F'.drop 4).take 32)) S')
+                (P.aead.enc (Noise.k2 P d1 d2) 0
+                  (Noise.h2 P encPrologue rpk ((F'.drop 4).take 32)
+                    (P.aead.enc (Noise.k1 P d1) 0 (Noise.h1 P encPrologue rpk ((F'.drop 4).take 32)) S')) pk')))
+              [] 0 hs ∧
+      (∀ h ∈ hs, h.1.length = 8 ∧ h.2.1.length = 4 ∧ h.2.2.length ≤ chunkSize) ∧
+      (∃ init l, hs = init ++ [l] ∧ beVal l.2.1 = 1 ∧ ∀ h ∈ init, beVal h.2.1 ≠ 1) := by
+  by_cases hm : F'.take 4 = encPrologue
+  · by_cases hl : 132 ≤ F'.length
+    · rw [keyDecrypt_body P r rpk F' hm hl] at h
+      split at h
+      · simp at h
+      · rename_i pk spk hh hrd
+        split at h
+        · simp at h
+        · rename_i hpk
+          have hpk' : pk.length = 32 := by simpa using hpk
+          simp only [Prod.mk.injEq] at h
+          obtain ⟨hws, hres, hsnd⟩ := h
+          rw [hres, if_pos rfl] at hsnd
+          have hspk : spk = S' := Option.some.inj hsnd
+          subst hspk
+          obtain ⟨d1, d2, _, _, hSl, hdh1, hdec1, hdh2, hdec2, hh3⟩ :=
+            Noise.readMessage_ok_named P encPrologue r rpk _ pk spk hh hrd
+          have hE : ((F'.drop 4).take 128).take 32 = (F'.drop 4).take 32 := by rw [List.take_take]; rfl
+          rw [hE] at hdh1 hdec1 hdec2 hh3
+          have hk1 : (Noise.k1 P d1).length = 32 := (hP.hkdf2_len _ _).2
+          have hk2 : (Noise.k2 P d1 d2).length = 32 := (hP.hkdf2_len _ _).2
+          have hc1 := hP.aead.dec_sound _ _ _ _ _ hk1 hdec1
+          rw [hc1] at hdec2 hh3
+          have hc2 := hP.aead.dec_sound _ _ _ _ _ hk2 hdec2
+          rw [hc2] at hh3
+          have hmsg := Noise.msg_split' ((F'.drop 4).take 128)
+          rw [hE, hc1, hc2] at hmsg
+          obtain ⟨hs, hmap, hser, hall, hfl, _⟩ :=
+            C03_strict_chunks P.aead hP.aead _ [] (hP.hkdfFile_len pk hh) chunkSize _ 0 _ ws
+              (by rw [← hws, ← hres]; rfl)
+          rw [hh3] at hser
+          refine ⟨d1, d2, pk, hs, hdh1, hdh2, hSl, hpk', by simp only [List.length_take, List.length_drop]; omega,
+            hmap, ?_, hall, hfl⟩
+          rw [← hser]
+          have e1 : F' = F'.take 4 ++ (F'.drop 4).take 128 ++ F'.drop 132 := by
+            rw [← List.take_add, List.take_append_drop]
+          rw [hm, hmsg] at e1
+          simpa only [List.append_assoc] using e1
+    · have := (keyDecrypt_short P r rpk F' (by omega)).2
+      rw [h] at this; exact absurd rfl this
+  · have := (keyDecrypt_bad_magic P r rpk F' hm).2.1
+    rw [h] at this; exact absurd rfl this
+
 end Kestrel
